@@ -158,6 +158,8 @@ def run_tlc(
     m = re.search(r"Error: Action property (\w+) is violated", out)
     if m:
         res.violated = m.group(1)
+    if "Error: Deadlock reached" in out:
+        res.violated = res.violated or "deadlock"
     if "Temporal properties were violated" in out:
         res.violated = res.violated or "temporal"
     m = re.search(r"Error: The postcondition (\w+)? ?.*is violated|Error: Evaluating assumption|POSTCONDITION.*violated", out)
@@ -173,7 +175,7 @@ def run_tlc(
         tail = "\n".join(out.strip().splitlines()[-40:])
         raise MachineryError("TLC failed on %s:\n%s" % (name, tail))
     else:
-        res.error = "\n".join(l for l in out.splitlines() if l.startswith("Error:") or l.startswith("/\\") or l.startswith("State "))[:4000]
+        res.error = "\n".join(l for l in out.splitlines() if l.startswith("Error:") or l.startswith("/\\") or l.startswith("State "))[-6000:]
     return res
 
 
